@@ -79,6 +79,35 @@ Section PlanTerms.
       intros H; inversion H. eexists. repeat split; reflexivity.
   Qed.
 
+  (* the "statistics are required" error of the wrapper: only for a runtime
+     tensor without an entry in the store *)
+  Lemma wrapper_error s o opid adjy c t inbound e :
+    wrapper s o opid adjy c t inbound None = Err e ->
+    (store_get s (tname t) = None /\ is_const t = false /\ e = ValueError) \/
+    (is_blockwise c && is_const t = true /\ e = OtherError) \/
+    (exists tc, chosen_cfg o c t = Some tc /\ param_qdim o tc t (is_const t) adjy = Err e) \/
+    (exists const, get_tensor_transformations c inbound const = Err e).
+  Proof.
+    unfold Plan.wrapper, chosen_cfg.
+    destruct (if is_const t && in_ops o weight_ops then ocfg_weight_tensor_config c
+              else ocfg_activation_tensor_config c) as [tc|].
+    - destruct (is_blockwise c && is_const t) eqn:Eb; cbn [bind]; [intros H; inversion H; right; left; auto|].
+      destruct (store_get s (tname t)) as [v|] eqn:Es; cbn [bind].
+      + destruct (param_qdim o tc t (is_const t) adjy) as [qd|] eqn:Eq; cbn [bind].
+        * unfold mk_entry. destruct (get_tensor_transformations c inbound (is_const t)) eqn:Et; cbn [bind]; [discriminate|].
+          intros H; inversion H; subst. right; right; right. eexists. exact Et.
+        * intros H; inversion H; subst. right; right; left. exists tc. auto.
+      + destruct (is_const t) eqn:Ec; cbn [bind].
+        * destruct (param_qdim o tc t true adjy) as [qd|] eqn:Eq; cbn [bind].
+          -- unfold mk_entry. destruct (get_tensor_transformations c inbound true) eqn:Et; cbn [bind]; [discriminate|].
+             intros H; inversion H; subst. right; right; right. eexists. exact Et.
+          -- intros H; inversion H; subst. right; right; left. exists tc. auto.
+        * intros H; inversion H; subst. left. auto.
+    - cbn [bind]. unfold mk_entry.
+      destruct (get_tensor_transformations c inbound (is_const t)) eqn:Et; cbn [bind]; [discriminate|].
+      intros H; inversion H; subst. right; right; right. eexists. exact Et.
+  Qed.
+
   (* per-channel parameters: only under a CHANNELWISE tensor config, and then
      on the op's own weight dimension (table / batch-matmul rule) *)
   Lemma param_qdim_channel o tc t const adjy d :
